@@ -130,7 +130,7 @@ def graph_content(gid):
     edges = {}
     for a, b, d in g.edges(data=True):
         if a in key and b in key:
-            edges[frozenset((key[a], key[b]))] = {k: v for k, v in d.items() if k != 'contraction'}
+            edges[frozenset((key[a], key[b]))] = dict(d)
     return nodes, edges
 
 
